@@ -30,6 +30,7 @@ type TestSpec struct {
 	Rem      int64   `json:"rem,omitempty"`
 	MsgFn    bool    `json:"msgfn,omitempty"`    // z.MessageFunc setting "MF:<code>"
 	Params   []KV    `json:"params,omitempty"`   // z.Params(...) replaces the test's params
+	Twice    bool    `json:"twice,omitempty"`    // TFunc: a failing invocation reports two issues
 	Edited   bool    `json:"edited,omitempty"`   // Reusable, and the options were applied to a copy of the Test value after construction
 	Reusable bool    `json:"reusable,omitempty"` // custom test built with z.TestFunc(code, fn, opts...) and added with schema.Test(t)
 	TFunc    bool    `json:"tfunc,omitempty"`    // custom test written as z.Test{Func: func(val, ctx)} that adds its own issue via ctx.AddIssue(ctx.Issue()...)
@@ -343,6 +344,7 @@ type OpRec struct {
 	FmtSeen  []string // issues observed by the execution-level formatter, in order: "path|code"
 	Injected []string
 	Validate bool
+	LastCtx  z.Ctx // the context the last callback of this operation was handed
 }
 
 type injectedPanic struct{ msg string }
@@ -420,6 +422,7 @@ func (e *Engine) record(n *Node, kind string, idx int, arg any, ctx z.Ctx, wantA
 		}
 	}
 	if ctx != nil {
+		rec.LastCtx = ctx
 		for _, k := range rec.CtxKeys {
 			c.Gets = append(c.Gets, k+"="+Canon(ctx.Get(k)))
 		}
@@ -532,6 +535,10 @@ func (e *Engine) tfuncTest(n *Node, idx int, t TestSpec) z.Test {
 		e.record(n, "test", idx, val, ctx, false)
 		if !CustomPass(t, val) {
 			ctx.AddIssue(ctx.Issue().SetCode(t.Code).SetMessage("TF:" + t.Code))
+			if t.Twice {
+				// a test that checks several rules may report more than one of them
+				ctx.AddIssue(ctx.Issue().SetCode(t.Code + "_second_rule").SetMessage("TF:" + t.Code + " (second rule)"))
+			}
 		}
 	}}
 }
